@@ -50,20 +50,27 @@ impl Read for LineReader {
     }
 }
 
-/// Accepts `budget` bytes in total; a call that cannot place a single byte fails.
+/// Accepts `budget` bytes in total; a call that cannot place a single byte fails (the kind of the I/O error varies with the
+/// budget: a broken pipe is as much a fault as any other).  Like any `Write`, it may take only part of a buffer: without a
+/// budget every other call is a short write of 1, 5 or 2 bytes.
 pub struct BudgetWriter {
     budget: Option<usize>,
+    initial: usize,
+    calls: usize,
     log: Log,
 }
+const FAULT_KINDS: [io::ErrorKind; 5] =
+    [io::ErrorKind::BrokenPipe, io::ErrorKind::Other, io::ErrorKind::WouldBlock, io::ErrorKind::UnexpectedEof, io::ErrorKind::PermissionDenied];
 impl Write for BudgetWriter {
     fn write(&mut self, buf: &[u8]) -> io::Result<usize> {
+        self.calls += 1;
         let n = match self.budget {
-            None => buf.len(),
+            None => [usize::MAX, 1, usize::MAX, 5, usize::MAX, 2][self.calls % 6].min(buf.len()),
             Some(b) => b.min(buf.len()),
         };
         if n == 0 && !buf.is_empty() {
             self.log.borrow_mut().push(Ev::WriteFail);
-            return Err(io::Error::new(io::ErrorKind::Other, "injected write fault"));
+            return Err(io::Error::new(FAULT_KINDS[self.initial % FAULT_KINDS.len()], "injected write fault"));
         }
         if let Some(b) = self.budget.as_mut() {
             *b -= n;
@@ -82,6 +89,8 @@ pub struct RunCfg {
     pub input: Vec<Vec<u8>>,
     pub out_budget: Option<usize>,
     pub in_fail_at: Option<usize>,
+    /// do not collect statement events (runs with very deep scope stacks)
+    pub no_events: bool,
 }
 
 pub enum Outcome {
@@ -152,14 +161,21 @@ pub fn run(program: &Program, cfg: &RunCfg) -> RunObs {
     };
     let writer = BudgetWriter {
         budget: cfg.out_budget,
+        initial: cfg.out_budget.unwrap_or(0),
+        calls: 0,
         log: log.clone(),
     };
     let sink_log = log.clone();
+    let no_events = cfg.no_events;
     let result = catch_unwind(AssertUnwindSafe(|| {
-        rrss::verif::with_sink(
-            Box::new(move |ev| sink_log.borrow_mut().push(Ev::Stmt(ev))),
-            || -> Result<(), RuntimeError> { exec_using(reader, writer, program) },
-        )
+        if no_events {
+            exec_using(reader, writer, program)
+        } else {
+            rrss::verif::with_sink(
+                Box::new(move |ev| sink_log.borrow_mut().push(Ev::Stmt(ev))),
+                || -> Result<(), RuntimeError> { exec_using(reader, writer, program) },
+            )
+        }
     }));
     let outcome = match result {
         Ok(Ok(())) => Outcome::Ok,
